@@ -28,6 +28,7 @@ MAP = [
     ("MinFlowDecompCycles must reject a non-conserving flow", "C19", "MinFlowDecompCycles accepted a non-conserving flow although it documents a ValueError"),
     ("greedy solution of node-weighted kFlowDecomp must carry its weights", "C01", "kFlowDecomp(flow_attr_origin='node') solved by the greedy route returned 'weights': None (reachable for graphs without edges, e.g. a single node) (also C02)"),
     ("greedy flow decomposition must respect weight_type=int", "C02", "greedy route of kFlowDecomp/MinFlowDecomp returned float weights for weight_type=int when the flow values were given as floats"),
+    ("a failed (re-)solve must not leave a stale cached solution", "C13", "after an inconclusive (re-)solve the k-models, MinSetCover and MinErrorFlow (inconclusive few-flow-values phase) still handed out the previously cached solution / stayed solved"),
     ("MinErrorFlow with few_flow_values_epsilon on node-weighted", "C16", "MinErrorFlow(flow_attr_origin='node', few_flow_values_epsilon>0) raised KeyError"),
 ]
 def main():
